@@ -234,6 +234,15 @@ class NumpyCodegenMapper(CachedMapper[str, Never, []]):
                                            attr=cast("str", e_np.dtype.name)),
                         args=[_constant(value="nan")],
                         keywords=[])
+                elif isinstance(e, np.floating) and np.isinf(e):
+                    # The repr of a typed infinity ('np.float32(inf)') is not
+                    # valid Python. Generates code like `-np.float32("inf")`.
+                    inf = ast.Call(
+                        func=ast.Attribute(value=ast.Name(self.numpy),
+                                           attr=cast("str", e.dtype.name)),
+                        args=[_constant(value="inf")],
+                        keywords=[])
+                    return ast.UnaryOp(ast.USub(), inf) if e < 0 else inf
                 else:
                     return _constant(e)
 
